@@ -42,7 +42,7 @@ def clang_ast(path):
     d = os.path.dirname(path)
     cmd = ["clang-14", "-fsyntax-only", "-fopenmp", "-w", "-I" + STUBS, "-I" + d,
            "-I" + os.path.join(LIB, "mod_cider"), "-I" + os.path.join(LIB, "fft_wrapper"),
-           "-I/venv/lib/python3.12/site-packages/pyscf/lib", "-Xclang", "-ast-dump=json", path]
+           "-I/venv/lib/python3.12/site-packages/pyscf/lib", "-I/venv/lib/python3.12/site-packages/pyscf/lib/deps/include", "-Xclang", "-ast-dump=json", path]
     p = subprocess.run(cmd, capture_output=True, text=True)
     if p.returncode != 0 or not p.stdout.strip():
         raise RuntimeError("clang failed on %s: %s" % (path, p.stderr[-800:]))
